@@ -133,8 +133,49 @@ def _coded_products(ctx: Ctx):
         ctx.count("coded-products", F.split("contr.")[1].split("(")[0].rstrip(")"))
 
 
+def _label_collisions(ctx: Ctx):
+    """data columns whose NAMES are what another factor's encoded columns are called ('A[T.y]', 'A[y]', 'a:b'): each factor still contributes
+    its own values to every product"""
+    import numpy as np
+    import pandas as pd
+    from formulaic import model_matrix
+    rng = ctx.fork("label-collisions")
+    n = 9
+    A = [["x", "y", "z"][k % 3] for k in range(n)]
+    df = pd.DataFrame({"A": pd.Series(A, dtype=object), "A[T.y]": [2.0 + k for k in range(n)], "A[y]": [0.5 * k - 1.0 for k in range(n)],
+                       "A[T.z]": [3.0 - k for k in range(n)], "a": [1.0 + (k * 3) % 5 for k in range(n)],
+                       "B": pd.Series([["u", "v"][(k // 2) % 2] for k in range(n)], dtype=object), "B[T.v]": [1.5 * k - 4.0 for k in range(n)]})
+    ind = {lv: np.array([1.0 if v == lv else 0.0 for v in A]) for lv in "xyz"}
+    cases = [("0 + A:`A[y]`", [("A[x]:A[y]", ind["x"] * df["A[y]"]), ("A[y]:A[y]", ind["y"] * df["A[y]"]), ("A[z]:A[y]", ind["z"] * df["A[y]"])]),
+             ("1 + `A[T.y]` + A:`A[T.y]`", None), ("a + A + A:`A[T.z]`:a", None), ("0 + `A[T.y]`:`A[y]`:A", None), ("A:`A[T.y]`:`A[T.z]`", None),
+             # a two-level factor at reduced rank has ONE column, called like the data column next to it
+             ("B + B:`B[T.v]`", None), ("1 + `B[T.v]` + B:`B[T.v]`", None), ("B + a:B:`B[T.v]`", None), ("B + `B[T.v]`:B:A", None)]
+    for f, _ in cases:
+        for out in ("pandas", "numpy", "sparse"):
+            for efr in (True, False):
+                ctx.oracle_runs += 1
+                rp = {"kind": "label-collisions", "formula": f, "output": out, "ensure_full_rank": efr}
+                try:
+                    mm = model_matrix(f, df, output=out, ensure_full_rank=efr)
+                    # the same design with harmless names
+                    g = f.replace("`A[T.y]`", "p").replace("`A[y]`", "q").replace("`A[T.z]`", "r").replace("`B[T.v]`", "w")
+                    ref = model_matrix(g, df.rename(columns={"A[T.y]": "p", "A[y]": "q", "A[T.z]": "r", "B[T.v]": "w"}), output=out, ensure_full_rank=efr)
+                except Exception as e:
+                    ctx.fail(f"{f!r}: {type(e).__name__}: {str(e)[:200]}", rp)
+                    continue
+                a = np.asarray(mm.toarray() if out == "sparse" else mm, dtype=float)
+                b = np.asarray(ref.toarray() if out == "sparse" else ref, dtype=float)
+                if out == "pandas" and len(set(mm.model_spec.column_names)) != len(mm.model_spec.column_names):
+                    continue                      # identical labels are merged by the data frame (a C05/C10 matter)
+                if a.shape != b.shape or not np.array_equal(a, b):
+                    ctx.fail(f"{f!r} ({out}, ensure_full_rank={efr}): columns {list(mm.model_spec.column_names)} hold {a.tolist()}; the same data with the columns renamed "
+                             f"to p, q, r ({g!r}) gives {b.tolist()}", rp)
+    ctx.count("label-collisions", "formulas", len(cases))
+
+
 def run(ctx: Ctx):
     _coded_products(ctx)
+    _label_collisions(ctx)
     rng = ctx.fork("build")
     lits, descr = [], []
     for i in range(ctx.n(700, 12000)):
